@@ -1,10 +1,213 @@
+import BoboVerif.Model.Engine
 import BoboVerif.Drivers.Util
-/- driver stub for the Engine model (to be replaced by the real line protocol). -/
+/-
+driver for M-Engine (`bobodrv engine`).  The matcher is scripted: every `update`
+line carries the notifications the real decider produced, in order.
+
+  cfg <tR> <tD> <tP> <tF> <early 0|1> <validator all|int|str|intstr> <localOnly 0|1>   -> ok   (resets everything)
+  phen <name> <P|F|B> <datagen -|cnt|grp|k<int>> <action -|<name>:<t|f|h>>              -> ok
+  add raw <data>            data = none | i<int> | s<letters>
+  add sev <id> <ts> <data>  an already-built simple event
+  update [dec <nc> <nh> <nu> <rec>…]…      rec = runid|phen|pat|idx|hist ; hist = - or g=e1+e2/g2=e3
+
+  step <R|D|P|F> [dec …]   one `update()` of a single task (fine-grained interleaving)
+
+answer to add/update/step:
+  sz <rq> <dq> <pq> <fq> <hq> | pub <events> | cx <events> | ac <events> | ex <name@cevid…> | err <-|text> | script <ok|under|left<k>> | ret <-|0|1>
+-/
 namespace Bobo.Drv.Engine
+open Bobo.Engine
+
+/-- scripted matcher state: notifications still to hand out, underflow flag. -/
+abbrev Script := List Notif × Bool
+
+def scripted (s : Script) (_e : Event) : Script × Notif :=
+  match s.1 with
+  | n :: rest => ((rest, s.2), n)
+  | [] => (([], true), ⟨[], [], []⟩)
+
+structure PhenD where
+  name  : String
+  inP   : Bool
+  inF   : Bool
+  dg    : String
+  act   : String
 
 structure DS where
-  dummy : Unit := ()
+  cfg   : Cfg := {}
+  valid : String := "all"
+  localOnly : Bool := true
+  phens : List PhenD := []
+  st    : St Script := init ([], false)
+  ready : Bool := false
 
-def step (d : DS) (_line : String) : DS × String := (d, "unimplemented")
+def histCount (h : Hist) : Nat := (h.map (fun g => g.2.length)).foldl (· + ·) 0
+
+def datagenFn (spec : String) : Option (Option (Hist → Data)) :=
+  if spec = "-" then some none
+  else if spec = "cnt" then some (some fun h => .int (histCount h))
+  else if spec = "grp" then some (some fun h => .int h.length)
+  else if spec.startsWith "k" then
+    match (spec.drop 1).toInt? with
+    | some k => some (some fun _ => .int k)
+    | none => none
+  else none
+
+def actionFn (spec : String) : Option (Option (String × (Event → Bool × Data))) :=
+  if spec = "-" then some none
+  else match spec.splitOn ":" with
+    | [name, "t"] => some (some (name, fun e => (true, e.data)))
+    | [name, "f"] => some (some (name, fun _ => (false, .none)))
+    | [name, "h"] => some (some (name, fun e => (histCount e.hist % 2 == 0, .str e.phen)))
+    | _ => none
+
+def dataOk (v : String) (d : Data) : Bool :=
+  match v, d with
+  | "all", _ => true
+  | "int", .int _ => true
+  | "str", .str _ => true
+  | "intstr", .int _ => true
+  | "intstr", .str _ => true
+  | _, _ => false
+
+def validFn (v : String) : Item → Bool
+  | .raw d => dataOk v d
+  | .ev e => dataOk v e.data
+
+def params (d : DS) : Params Script :=
+  { decide := scripted
+    isValid := validFn d.valid
+    datagenOf := fun n =>
+      match d.phens.find? (fun p => p.inP && p.name == n) with
+      | some p => datagenFn p.dg
+      | none => none
+    actionOf := fun n =>
+      match d.phens.find? (fun p => p.inF && p.name == n) with
+      | some p => (actionFn p.act).bind id
+      | none => none
+    localOnly := d.localOnly
+    idOf := fun k => "e" ++ toString k
+    tsOf := fun k => (k : Int) }
+
+def parseData (t : String) : Option Data :=
+  if t = "none" then some .none
+  else if t.startsWith "i" then (t.drop 1).toInt?.map .int
+  else if t.startsWith "s" then some (.str (t.drop 1).toString)
+  else none
+
+def showData : Data → String
+  | .none => "none"
+  | .int n => "i" ++ toString n
+  | .str s => "s" ++ s
+
+def parseHist (t : String) : Option Hist :=
+  if t = "-" then some []
+  else
+    (t.splitOn "/").mapM fun g =>
+      match g.splitOn "=" with
+      | [name, ids] => some (name, if ids = "" then [] else ids.splitOn "+")
+      | _ => none
+
+def showHist (h : Hist) : String :=
+  if h.isEmpty then "-"
+  else "/".intercalate (h.map fun g => g.1 ++ "=" ++ "+".intercalate g.2)
+
+def parseRec (t : String) : Option RunRec :=
+  match t.splitOn "|" with
+  | [rid, ph, pa, idx, h] =>
+    match idx.toNat?, parseHist h with
+    | some i, some hh => some ⟨rid, ph, pa, i, hh⟩
+    | _, _ => none
+  | _ => none
+
+/-- parse `dec nc nh nu rec…` groups. -/
+def parseScript : Nat → List String → Option (List Notif)
+  | _, [] => some []
+  | 0, _ => none
+  | fuel + 1, "dec" :: a :: b :: c :: rest =>
+    match a.toNat?, b.toNat?, c.toNat? with
+    | some nc, some nh, some nu =>
+      if rest.length < nc + nh + nu then none
+      else
+        match (rest.take nc).mapM parseRec, ((rest.drop nc).take nh).mapM parseRec,
+              ((rest.drop (nc + nh)).take nu).mapM parseRec with
+        | some cs, some hs, some us =>
+          (parseScript fuel (rest.drop (nc + nh + nu))).map (⟨cs, hs, us⟩ :: ·)
+        | _, _, _ => none
+    | _, _, _ => none
+  | _, _ => none
+
+def showEvent (e : Event) : String :=
+  match e.kind with
+  | .simple => s!"S({e.id},{e.ts},{showData e.data})"
+  | .complex => s!"C({e.id},{e.ts},{showData e.data},{e.phen},{e.pat},{showHist e.hist})"
+  | .action => s!"A({e.id},{e.ts},{showData e.data},{e.phen},{e.pat},{e.actName},{boolStr e.success})"
+
+def showEvents (es : List Event) : String :=
+  if es.isEmpty then "-" else ";".intercalate (es.map showEvent)
+
+def report (old new : St Script) (scriptInfo : String) (ret : String := "-") : String :=
+  let pub := new.published.drop old.published.length
+  let cx := (new.complexes.drop old.complexes.length).map (·.1)
+  let ac := new.actions.drop old.actions.length
+  let ex := new.execs.drop old.execs.length
+  let exs := if ex.isEmpty then "-" else ";".intercalate (ex.map fun x => x.actName ++ "@" ++ x.cev.id)
+  s!"sz {new.rq.length} {new.dq.length} {new.pq.length} {new.fq.length} {new.hq.length} | pub {showEvents pub} | cx {showEvents cx} | ac {showEvents ac} | ex {exs} | err {new.err.getD "-"} | script {scriptInfo} | ret {ret}"
+
+def step (d : DS) (line : String) : DS × String :=
+  match words line with
+  | ["cfg", a, b, c, e, es, v, lo] =>
+    match a.toNat?, b.toNat?, c.toNat?, e.toNat? with
+    | some tR, some tD, some tP, some tF =>
+      if (es = "0" || es = "1") && (lo = "0" || lo = "1") && (["all", "int", "str", "intstr"].contains v) then
+        ({ cfg := ⟨tR, tD, tP, tF, es = "1"⟩, valid := v, localOnly := lo = "1", phens := [],
+           st := init ([], false), ready := true }, "ok")
+      else (d, "bad-op")
+    | _, _, _, _ => (d, "bad-op")
+  | ["phen", name, wh, dg, act] =>
+    if !d.ready then (d, "bad-op")
+    else if !(["P", "F", "B"].contains wh) then (d, "bad-op")
+    else
+      match datagenFn dg, actionFn act with
+      | some _, some _ =>
+        ({ d with phens := d.phens ++ [⟨name, wh != "F", wh != "P", dg, act⟩] }, "ok")
+      | _, _ => (d, "bad-op")
+  | ["add", "raw", t] =>
+    if !d.ready then (d, "bad-op") else
+    match parseData t with
+    | some x =>
+      let s' := applyOp (params d) d.cfg d.st (.add (.raw x))
+      ({ d with st := s' }, report d.st s' "ok")
+    | none => (d, "bad-op")
+  | ["add", "sev", i, ts, t] =>
+    if !d.ready then (d, "bad-op") else
+    match ts.toInt?, parseData t with
+    | some tt, some x =>
+      let s' := applyOp (params d) d.cfg d.st (.add (.ev { kind := .simple, id := i, ts := tt, data := x }))
+      ({ d with st := s' }, report d.st s' "ok")
+    | _, _ => (d, "bad-op")
+  | "update" :: rest =>
+    if !d.ready then (d, "bad-op") else
+    match parseScript (rest.length + 1) rest with
+    | some ns =>
+      let s0 := { d.st with ds := (ns, false) }
+      let s' := applyOp (params d) d.cfg s0 .update
+      let info := if s'.ds.2 then "under" else if s'.ds.1.isEmpty then "ok" else s!"left{s'.ds.1.length}"
+      ({ d with st := s' }, report d.st s' info (if s'.err.isSome then "-" else "1"))
+    | none => (d, "bad-op")
+  | "step" :: t :: rest =>
+    if !d.ready then (d, "bad-op") else
+    let task? : Option Task := match t with
+      | "R" => some .receiver | "D" => some .decider | "P" => some .producer | "F" => some .forwarder
+      | _ => none
+    match task?, parseScript (rest.length + 1) rest with
+    | some task, some ns =>
+      let s0 := { d.st with ds := (ns, false), err := none }
+      let r := taskUpdate (params d) task s0
+      let s' := r.1
+      let info := if s'.ds.2 then "under" else if s'.ds.1.isEmpty then "ok" else s!"left{s'.ds.1.length}"
+      ({ d with st := s' }, report d.st s' info (if s'.err.isSome then "-" else boolStr r.2))
+    | _, _ => (d, "bad-op")
+  | _ => (d, "bad-op")
 
 end Bobo.Drv.Engine
